@@ -3,7 +3,7 @@ are replayed on real Sequence objects; every step is validated by TLC (Trace_Sim
 import itertools
 
 from harness import core, project as P
-from harness.common import pmap, build, safe_views
+from harness.common import pmap, build, safe_views, doubled
 
 
 def apply(seq, o):
@@ -22,7 +22,13 @@ def apply(seq, o):
 
 def replay(case):
     idx, score, ops = case
-    seq = build(score, ("abs", "rel", "both")[idx % 3])
+    if idx % 5 == 4:
+        # a motif repeated: the same Message objects occur twice; arguments of pad move along with the doubled duration
+        seq = doubled(score)
+        half = sum(m["t"] for m in P.raw_rel(seq) if m["ty"] == "wait") // 2
+        ops = [dict(o, a=o["a"] + half) if o["op"] == "pad" else o for o in ops]
+    else:
+        seq = build(score, ("abs", "rel", "both")[idx % 3])
     lines = []
     first = True
     for o in ops:
